@@ -197,10 +197,179 @@ def make_bcd_cases(rng, n_cases):
     return cases, dist
 
 
+# ------------------------------------------------------------------ FISTA end to end (Quadratic datafit, real penalties)
+FISTA_PENS = ["L1", "L1_plus_L2", "WeightedL1", "MCPenalty", "WeightedMCPenalty", "SCAD", "IndicatorBox", "PositiveConstraint"]
+
+
+def make_fista_cases(rng, n_cases):
+    import skglm.penalties.separable as sep
+    import skglm.solvers.fista as fi
+    from skglm.datafits import Quadratic
+    from skglm.utils.jit_compilation import compiled_clone
+    cases, dist = [], dict(err=0, iters={}, warm=0, sparse=0, penalties={})
+    for k in range(n_cases):
+        X, y = gram_problem(rng)
+        if not np.any(X):
+            X[0, 0] = 1.0
+        n, p = X.shape
+        insts = {nm: (obj, fd) for nm, obj, _, fd in kernels._pen_instances(rng, sep, p)}
+        pname = rng.choice(FISTA_PENS)
+        pen, fd = insts[pname]
+        cfg = dict(max_iter=rng.choice([0, 1, 2, 3, 5, 8]), tol=rng.choice([2 ** -30, 2 ** -12, 2 ** -4, 0.5]))
+        w_init = None
+        if rng.random() < 0.4:
+            w_init = [rng.choice([0.0, 0.0, 0.25, 0.5, -0.5, 1.0]) for _ in range(p)]
+            if fd.get("positive") == "true" or pname in ("IndicatorBox", "PositiveConstraint"):
+                w_init = [abs(v) for v in w_init]
+        sp = rng.random() < 0.3
+        Xs = sparse.csc_matrix(X) if sp else np.asfortranarray(X)
+        df = compiled_clone(Quadratic())
+        (df.initialize_sparse(Xs.data, Xs.indptr, Xs.indices, y) if sp else df.initialize(Xs, y))
+        L = float(df.get_global_lipschitz(np.asfortranarray(X), y))      # data of the model: the dense spectral constant
+        solver = fi.FISTA(max_iter=cfg["max_iter"], tol=cfg["tol"])
+        try:
+            if sp:
+                # the sparse constant comes from a randomised power method: give the solver the dense one so that runs are comparable
+                df_run = df
+                orig = type(df).get_global_lipschitz_sparse if hasattr(type(df), "get_global_lipschitz_sparse") else None
+            w, objs, stop = solver._solve(np.asfortranarray(X), y, df, compiled_clone(pen),
+                                          None if w_init is None else np.array(w_init, dtype=float), None)
+            obs = dict(err=False, w=list(map(float, w)), obj=list(map(float, objs)), stop=float(stop))
+            if not np.all(np.isfinite(w)):
+                obs = dict(err=True, exc="non-finite")
+        except (ValueError, IndexError, TypeError, ZeroDivisionError, UnboundLocalError) as e:
+            obs = dict(err=True, exc=repr(e))
+        score, prox, value = _pen_lambdas(pname, fd)
+        wi = "None" if w_init is None else f"(Some {vq(w_init)})"
+        expr = f"fista_case {mat(X)} {vq(y)} {q(L)} {cfg['max_iter']} {q(cfg['tol'])} {score} {prox} {value} {wi}"
+        if obs["err"]:
+            o = "{| or_err := true; or_w := []; or_obj := []; or_stop := XBad |}"
+            dist["err"] += 1
+        else:
+            o = "{| or_err := false; or_w := %s; or_obj := %s; or_stop := %s |}" % (vq(obs["w"]), lst([xq(v) for v in obs["obj"]]), xq(obs["stop"]))
+            dist["iters"][len(obs["obj"])] = dist["iters"].get(len(obs["obj"]), 0) + 1
+        dist["warm"] += w_init is not None
+        dist["penalties"][pname] = dist["penalties"].get(pname, 0) + 1
+        cases.append((f"fista#{k} pen={pname}{fd} cfg={cfg} X={X.tolist()} y={y.tolist()} L={L} w_init={w_init} -> {obs}", expr, "chk_fista", o))
+    return cases, dist
+
+
+FISTA_IMPORTS = ["Gen.ProxFuncs", "Gen.PenSeparable", "Gen.SparseOps", "Gen.DfSingle", "Skel.AndersonCD", "Skel.Generic", "Skel.Fista", "Skel.CorrSolvers"]
+
+
+# ------------------------------------------------------------------ ProxNewton against dyadic mock kernels
+class _PNDatafit:
+    def __init__(self, M): self.M = M
+    def raw_hessian(self, y, Xw): return np.abs(np.asarray(Xw, dtype=float)) / 4
+    def raw_grad(self, y, Xw): return (np.asarray(Xw, dtype=float) - self.M.B) / 2
+    def value(self, y, w, Xw):
+        return sum((Xw[j % len(Xw)] - self.M.T[j]) ** 2 * self.M.a[j] / 2 for j in range(self.M.p))
+
+
+def _pn_thr(M, old, j):
+    v0 = (old + M.T[j]) / 2
+    return 0.0 if abs(v0) < M.thr else (0.0 if (M.positive and v0 < 0) else v0)
+
+
+def run_real_pn(M, cfg, w_init, Xw_init, sparse_X, n):
+    import skglm.solvers.prox_newton as pn
+    names = ("_descent_direction", "_descent_direction_s", "_backtrack_line_search", "_backtrack_line_search_s",
+             "_construct_grad", "_construct_grad_sparse", "dist_fix_point_cd", "np")
+    saved = {k: getattr(pn, k) for k in names}
+    counts = dict(inner=0)
+
+    def direction(w, Xw, fit_intercept, ws):
+        deltas = [_pn_thr(M, w[j], j) - w[j] for j in ws]
+        Xd = np.zeros(len(Xw))
+        for j, d in zip(ws, deltas):
+            Xd[j % len(Xw)] += d
+        if fit_intercept:
+            db = (M.B - w[-1]) / 4
+            deltas = deltas + [db]
+            Xd = Xd + db
+        return np.array(deltas, dtype=float), Xd, np.array([M.lip[j] for j in ws], dtype=float)
+
+    def dd(X, y, w, Xw, fit_intercept, grad_ws, datafit, penalty, ws, tol, ws_strategy): return direction(w, Xw, fit_intercept, ws)
+    def dd_s(d, ip, ix, y, w, Xw, fit_intercept, grad_ws, datafit, penalty, ws, tol, ws_strategy): return direction(w, Xw, fit_intercept, ws)
+
+    def ls(w, Xw, fit_intercept, delta, Xdelta, ws):
+        counts["inner"] += 1
+        for idx, j in enumerate(ws):
+            w[j] += delta[idx]
+        if fit_intercept:
+            w[-1] += delta[-1]
+        Xw += Xdelta
+        return np.array([M.g_at(Xw, j) for j in ws])
+
+    def bl(X, y, w, Xw, fit_intercept, datafit, penalty, delta, Xdelta, ws): return ls(w, Xw, fit_intercept, delta, Xdelta, ws)
+    def bl_s(d, ip, ix, y, w, Xw, fit_intercept, datafit, penalty, delta, Xdelta, ws): return ls(w, Xw, fit_intercept, delta, Xdelta, ws)
+    def cg(X, y, w, Xw, datafit, ws): return np.array([M.g_at(Xw, j) for j in ws])
+    def cg_s(d, ip, ix, y, w, Xw, datafit, ws): return np.array([M.g_at(Xw, j) for j in ws])
+    def fixp(w, grad, lip_ws, datafit, penalty, ws): return np.array([abs(grad[idx]) * lip_ws[idx] for idx, j in enumerate(ws)])
+    try:
+        pn._descent_direction, pn._descent_direction_s = dd, dd_s
+        pn._backtrack_line_search, pn._backtrack_line_search_s = bl, bl_s
+        pn._construct_grad, pn._construct_grad_sparse, pn.dist_fix_point_cd, pn.np = cg, cg_s, fixp, _ha.NpProxy()
+        p = M.p
+        X = np.ones((n, p))                      # X ** 2 = ones: the fix-point constants are sum_i raw_hessian_i for every feature
+        if sparse_X:
+            X = sparse.csc_matrix(X)
+        solver = pn.ProxNewton(p0=cfg["p0"], max_iter=cfg["max_iter"], max_pn_iter=cfg["max_pn_iter"], tol=cfg["tol"],
+                               ws_strategy="fixpoint" if cfg["fixpoint"] else "subdiff", fit_intercept=cfg["fit_intercept"])
+        w0 = None if w_init is None else np.array(w_init, dtype=float)
+        x0 = None if Xw_init is None else np.array(Xw_init, dtype=float)
+        import warnings
+        try:
+            with warnings.catch_warnings():
+                warnings.simplefilter("ignore")
+                w, obj, stop = solver._solve(X, np.zeros(n), _PNDatafit(M), _GPenalty(M), w0, x0)
+        except (ValueError, IndexError, TypeError, AttributeError, ZeroDivisionError) as e:
+            return dict(err=True, exc=repr(e))
+        return dict(err=False, w=list(map(float, w)), Xw=None if x0 is None else list(map(float, x0)), obj=list(map(float, obj)),
+                    stop=float(stop), iters=len(obj), inner=counts["inner"])
+    finally:
+        for k, v in saved.items():
+            setattr(pn, k, v)
+
+
+def make_pn_cases(rng, n_cases):
+    cases, dist = [], dict(err=0, iters={}, inner_total=0, sparse=0, warm=0, fixpoint=0, intercept=0, n_ne_p=0)
+    for k in range(n_cases):
+        M, cfg, w_init, Xw_init, sp, n = _ha.gen_case(rng)
+        cfg = dict(max_iter=cfg["max_iter"], max_pn_iter=rng.choice([0, 1, 2, 5]), p0=cfg["p0"], tol=cfg["tol"], fixpoint=cfg["fixpoint"],
+                   fit_intercept=cfg["fit_intercept"])
+        if w_init is not None and rng.random() < 0.15:
+            Xw_init = None                      # w_init without Xw_init: the model fit silently starts at 0
+        obs = run_real_pn(M, cfg, w_init, Xw_init, sp, n)
+        cfgc = ("{| pn_max_iter := %d; pn_max_pn_iter := %d; pn_p0 := %s; pn_tol := %s; pn_fixpoint := %s; pn_fit_intercept := %s; "
+                "pn_p := %d; pn_n := %d |}" % (cfg["max_iter"], cfg["max_pn_iter"], z(cfg["p0"]), q(cfg["tol"]), b(cfg["fixpoint"]),
+                                               b(cfg["fit_intercept"]), M.p, n))
+        wi = "None" if w_init is None else f"(Some {vq(w_init)})"
+        xi = "None" if Xw_init is None else f"(Some {vq(Xw_init)})"
+        expr = f"pn_solve {cfgc} (pn_mock {M.coq()} {M.p} {b(cfg['fit_intercept'])}) {wi} {xi}"
+        if obs["err"]:
+            o = "{| op_err := true; op_w := []; op_Xw := []; op_obj := []; op_stop := XBad; op_iters := 0; op_inner := 0 |}"
+            has_buf = False
+            dist["err"] += 1
+        else:
+            has_buf = obs["Xw"] is not None
+            o = ("{| op_err := false; op_w := %s; op_Xw := %s; op_obj := %s; op_stop := %s; op_iters := %d; op_inner := %d |}" % (
+                vq(obs["w"]), vq(obs["Xw"]) if has_buf else "[]", lst([xq(x) for x in obs["obj"]]), xq(obs["stop"]), obs["iters"], obs["inner"]))
+            dist["iters"][obs["iters"]] = dist["iters"].get(obs["iters"], 0) + 1
+            dist["inner_total"] += obs["inner"]
+        dist["sparse"] += sp; dist["warm"] += w_init is not None; dist["fixpoint"] += cfg["fixpoint"]
+        dist["intercept"] += cfg["fit_intercept"]; dist["n_ne_p"] += n != M.p
+        label = (f"pn#{k} n_samples={n} cfg={cfg} sparse={sp} w_init={w_init} Xw_init={Xw_init} T={M.T} a={M.a} lip={M.lip} "
+                 f"alpha={M.alpha} B={M.B} pos={M.positive} thr={M.thr} -> {obs}")
+        cases.append((label, expr, f"chk_pn {b(has_buf)}", o))
+    return cases, dist
+
+
+PN_IMPORTS = ["Skel.AndersonCD", "Skel.MockACD", "Skel.Generic", "Skel.ProxNewton", "Skel.CorrSolvers"]
 BCD_IMPORTS = ["Skel.AndersonCD", "Skel.MockACD", "Skel.Generic", "Skel.GroupBCD", "Skel.CorrSolvers"]
 
 SOLVER_TARGETS = ["Skel/CorrSolvers.vo"]
-SOLVER_SOURCES = ["skglm/solvers/gram_cd.py", "skglm/solvers/group_bcd.py"]
+SOLVER_SOURCES = ["skglm/solvers/gram_cd.py", "skglm/solvers/group_bcd.py", "skglm/solvers/prox_newton.py", "skglm/solvers/fista.py"]
 
 
 def solver_corr(tier, rng, tag):
@@ -212,9 +381,14 @@ def solver_corr(tier, rng, tag):
     nb = 300 if tier == "quick" else 2500
     bc, bdist = make_bcd_cases(rng, nb)
     rb = tvlib.run_cases(bc, BCD_IMPORTS, tag + "b", shard=12, jobs=16)
-    allc = cases + bc
-    return dict(cases=len(allc), bad=r["bad"] + rb["bad"], errors=r["errors"] + rb["errors"],
-                distribution=dict(gramcd_end_to_end=dist, groupbcd_mock_traces=bdist),
+    pc, pdist = make_pn_cases(rng, nb)
+    rp = tvlib.run_cases(pc, PN_IMPORTS, tag + "p", shard=12, jobs=16)
+    fc, fdist = make_fista_cases(rng, 40 if tier == "quick" else 400)
+    rf = tvlib.run_cases(fc, FISTA_IMPORTS, tag + "f", shard=6, jobs=16)
+    allc = cases + bc + pc + fc
+    return dict(cases=len(allc), bad=r["bad"] + rb["bad"] + rp["bad"] + rf["bad"],
+                errors=r["errors"] + rb["errors"] + rp["errors"] + rf["errors"],
+                distribution=dict(gramcd_end_to_end=dist, groupbcd_mock_traces=bdist, proxnewton_mock_traces=pdist, fista_end_to_end=fdist),
                 distinct_nontrivial=sum(1 for c in allc if "'obj': []" not in c[0] and "'err': True" not in c[0]),
                 samples=[dict(gramcd=cases[0][0][:500]), dict(groupbcd=bc[0][0][:500])])
 
@@ -230,11 +404,18 @@ def merge_corr(a, b_):
     return out
 
 
-if __name__ == "__main__" and len(__import__("sys").argv) > 3 and __import__("sys").argv[3] == "bcd":
+if __name__ == "__main__" and len(__import__("sys").argv) > 3 and __import__("sys").argv[3] in ("bcd", "pn", "fista"):
     import sys, tvlib
     rng = random.Random(int(sys.argv[1]))
-    cases, dist = make_bcd_cases(rng, int(sys.argv[2]))
-    r = tvlib.run_cases(cases, BCD_IMPORTS, "bcd", shard=12, jobs=16)
+    if sys.argv[3] == "pn":
+        cases, dist = make_pn_cases(rng, int(sys.argv[2]))
+        r = tvlib.run_cases(cases, PN_IMPORTS, "pn", shard=12, jobs=16)
+    elif sys.argv[3] == "fista":
+        cases, dist = make_fista_cases(rng, int(sys.argv[2]))
+        r = tvlib.run_cases(cases, FISTA_IMPORTS, "fista", shard=8, jobs=16)
+    else:
+        cases, dist = make_bcd_cases(rng, int(sys.argv[2]))
+        r = tvlib.run_cases(cases, BCD_IMPORTS, "bcd", shard=12, jobs=16)
     print(dist)
     print({k: v for k, v in r.items() if k != "bad"}, len(r["bad"]))
     for x in r["bad"][:4]:
